@@ -495,10 +495,10 @@ Proof.
   unfold put_def, upd_def. f_equal. apply nth_upd_ext. intros x Hx. unfold get_def. rewrite (nth_default_error _ _ _ _ Hx). reflexivity.
 Qed.
 
-Lemma put_def_vstep k d' s : dstep (get_def k s) d' -> dvstep (get_def k s) d' -> vstep s (put_def k d' s).
+Lemma put_def_vstep k d' s : ed_name d' = ed_name (get_def k s) -> dvstep (get_def k s) d' -> vstep s (put_def k d' s).
 Proof.
   intros Ds Dv. destruct (le_lt_dec (length (st_defs s)) k) as [Ho|Hk]; [rewrite put_def_out by exact Ho; apply vstep_refl|].
-  assert (N : names (put_def k d' s) = names s) by (apply names_put; apply (ds_name _ _ Ds)).
+  assert (N : names (put_def k d' s) = names s) by (apply names_put; exact Ds).
   constructor; [constructor| |].
   - exists []. rewrite app_nil_r. exact N.
   - intro j. destruct (Nat.eq_dec j k) as [->|Hne]; [rewrite get_put_same by exact Hk; apply (dv_mono _ _ Dv)|].
@@ -510,14 +510,14 @@ Proof.
   - intros e H. left. exact H.
 Qed.
 
-Lemma upd_def_vstep k f s : dstep (get_def k s) (f (get_def k s)) -> dvstep (get_def k s) (f (get_def k s)) -> vstep s (upd_def k f s).
+Lemma upd_def_vstep k f s : ed_name (f (get_def k s)) = ed_name (get_def k s) -> dvstep (get_def k s) (f (get_def k s)) -> vstep s (upd_def k f s).
 Proof. rewrite upd_def_put. apply put_def_vstep. Qed.
 
 Lemma lift_vstep cur f s s' : (forall d d', f d = Ok d' -> dstep d d') -> (forall d d', f d = Ok d' -> dvstep d d') ->
   lift cur f s = Ok s' -> vstep s s'.
 Proof.
   intros H1 H2 H. unfold lift in H. apply bind_ok in H. destruct H as (d & Hd & H). inversion H; subst.
-  apply put_def_vstep; [eapply H1; exact Hd|eapply H2; exact Hd].
+  apply put_def_vstep; [apply (ds_name _ _ (H1 _ _ Hd))|eapply H2; exact Hd].
 Qed.
 
 Lemma set_meta_dvstep d lib prim params attrs : dvstep d (set_meta d lib prim params attrs).
@@ -553,4 +553,103 @@ Proof.
     + rewrite app_nth2, Nat.sub_diag in Hin by lia. exact Hin.
     + rewrite nth_overflow in Hin by (rewrite app_length; cbn; lia). exact Hin.
   - intros e He. left. exact He.
+Qed.
+
+(* ---------- port maps ---------- *)
+Lemma conn_tail_vstep cur ii rk pk s2 wires calls d2 :
+  NoDup (names s2) -> iref s2 cur ii rk ->
+  (forall w, In w wires -> wire_in (get_def cur s2) w) ->
+  aligned (POuter ii pk) (b_items (port_bundle pk (get_def rk s2))) wires = Ok calls ->
+  connect_all calls (get_def cur s2) = Ok d2 ->
+  vstep s2 (put_def cur d2 s2) /\ names (put_def cur d2 s2) = names s2.
+Proof.
+  intros ND (Hc & Hr & i & Hi & R) Hw Ha Hd.
+  destruct (aligned_spec _ _ _ _ Ha) as [L ->].
+  pose proof (connect_all_conn _ _ _ Hd) as E.
+  assert (N : names (put_def cur d2 s2) = names s2) by (apply names_put; rewrite E; reflexivity).
+  split; [|exact N].
+  constructor; [constructor| |].
+  - exists []. rewrite app_nil_r. exact N.
+  - intro j. destruct (Nat.eq_dec j cur) as [->|Hne].
+    + rewrite get_put_same by exact Hc. rewrite E. constructor; cbn [ed_ports ed_cables ed_insts set_conn]; eauto.
+    + rewrite get_put_other by exact Hne. apply dmono_refl.
+  - intros j p w Hin. destruct (Nat.eq_dec j cur) as [->|Hne]; [|rewrite get_put_other in Hin by exact Hne; left; exact Hin].
+    rewrite get_put_same in Hin |- * by exact Hc. rewrite E in Hin. cbn [ed_conn set_conn] in Hin.
+    apply in_app_iff in Hin. destruct Hin as [Hin|Hin]; [left; exact Hin|right].
+    apply in_map_iff in Hin. destruct Hin as ([w0 p0] & Ex & Hin). cbn in Ex. inversion Ex; subst w0 p0. clear Ex.
+    pose proof (in_combine_l _ _ _ _ Hin) as Hw0. pose proof (in_combine_r _ _ _ _ Hin) as Hp0.
+    apply in_map_iff in Hp0. destruct Hp0 as (k & <- & Hk). apply in_rev in Hk. apply in_seq in Hk.
+    assert (Fi : ed_insts d2 = ed_insts (get_def cur s2)) by (rewrite E; reflexivity).
+    assert (Fc : ed_cables d2 = ed_cables (get_def cur s2)) by (rewrite E; reflexivity).
+    assert (Fp : ed_ports d2 = ed_ports (get_def cur s2)) by (rewrite E; reflexivity).
+    split.
+    + destruct (Hw w Hw0) as (c & C1 & C2). exists c. split; [rewrite Fc; exact C1|exact C2].
+    + cbn [pin_ok]. rewrite Fi. exists i. split; [exact Hi|]. rewrite R.
+      cbn [ref_ports]. rewrite (find_def_names _ _ _ N). rewrite (find_def_self rk s2 ND Hr).
+      assert (Ep : ed_ports (get_def rk (put_def cur d2 s2)) = ed_ports (get_def rk s2)).
+      { destruct (Nat.eq_dec rk cur) as [->|Hne]; [rewrite get_put_same by exact Hc; exact Fp|rewrite get_put_other by exact Hne; reflexivity]. }
+      rewrite Ep. apply port_bundle_in. apply nth_In. lia.
+  - intros e He. left. exact He.
+Qed.
+
+Lemma named_conn_vstep cur ii rk pc s s' : NoDup (names s) -> iref s cur ii rk -> named_conn cur ii rk pc s = Ok s' ->
+  vstep s s' /\ names s' = names s.
+Proof.
+  unfold named_conn. destruct pc as [pname [e|]]; destruct (has_glob pname); try discriminate; intros ND IR H.
+  - apply bind_ok in H. destruct H as ([d1 ws] & H1 & H).
+    destruct (expr_wires_dvstep _ _ _ _ H1) as [Dv1 W1]. pose proof (expr_wires_dstep _ _ _ _ H1) as Ds1.
+    set (s1 := put_def cur d1 s) in *.
+    assert (V1 : vstep s s1) by (apply put_def_vstep; [apply (ds_name _ _ Ds1)|exact Dv1]).
+    assert (N1 : names s1 = names s) by (apply names_put; apply (ds_name _ _ Ds1)).
+    pose proof (cou_port_dstep pname (Some (Z.of_nat (length ws) - 1)%Z) (Some 0%Z) None false (get_def rk s1)) as X.
+    pose proof (cou_port_dvstep pname (Some (Z.of_nat (length ws) - 1)%Z) (Some 0%Z) None false (get_def rk s1)) as Y.
+    destruct (cou_port _ _ _ _ _ (get_def rk s1)) as [rd1 pk]. cbn [fst] in X, Y.
+    set (s2 := put_def rk rd1 s1) in *.
+    assert (V2 : vstep s1 s2) by (apply put_def_vstep; [apply (ds_name _ _ X)|exact Y]).
+    assert (N2 : names s2 = names s1) by (apply names_put; apply (ds_name _ _ X)).
+    apply bind_ok in H. destruct H as (calls & Ha & H). apply bind_ok in H. destruct H as (d2 & H2 & H). inversion H; subst s'. clear H.
+    assert (IR2 : iref s2 cur ii rk) by (eapply iref_mono; [eapply smono_trans; [apply V1|apply V2]|exact IR]).
+    assert (Hc : (cur < length (st_defs s))%nat) by apply IR.
+    assert (G2 : get_def rk s2 = rd1). { apply get_put_same. unfold s1. rewrite put_def_length. apply IR. }
+    rewrite <- G2 in Ha.
+    destruct (conn_tail_vstep cur ii rk pk s2 ws calls d2) as [V3 N3]; [rewrite N2, N1; exact ND|exact IR2| |exact Ha|exact H2|].
+    + intros w Hw. apply (dm_cables _ _ (sm_defs _ _ (vs_mono _ _ V2) cur)). unfold s1. rewrite get_put_same by exact Hc. apply W1. exact Hw.
+    + split; [eapply vstep_trans; [exact V1|eapply vstep_trans; [exact V2|exact V3]]|congruence].
+  - inversion H; subst. pose proof (cou_port_dstep pname (Some 0%Z) (Some 0%Z) None false (get_def rk s)) as X.
+    split; [apply upd_def_vstep; [apply (ds_name _ _ X)|apply cou_port_dvstep]|].
+    rewrite upd_def_put. apply names_put. apply (ds_name _ _ X).
+Qed.
+
+Lemma add_port_dvstep d p : dvstep d (set_ports d (ed_ports d ++ [p])).
+Proof.
+  apply dmono_dvstep; [|reflexivity]. constructor; cbn [ed_ports ed_cables ed_insts set_ports]; eauto.
+  intros pk ord (p0 & P & Ho). exists p0. split; [apply nth_error_app_keep; exact P|exact Ho].
+Qed.
+
+Lemma pos_conn_vstep cur ii rk fresh index oe s s' : NoDup (names s) -> iref s cur ii rk -> pos_conn cur ii rk fresh index oe s = Ok s' ->
+  vstep s s' /\ names s' = names s.
+Proof.
+  unfold pos_conn. intros ND IR H. destruct oe as [e|].
+  - apply bind_ok in H. destruct H as ([d1 ws] & H1 & H).
+    destruct (expr_wires_dvstep _ _ _ _ H1) as [Dv1 W1]. pose proof (expr_wires_dstep _ _ _ _ H1) as Ds1.
+    set (s1 := put_def cur d1 s) in *.
+    assert (V1 : vstep s s1) by (apply put_def_vstep; [apply (ds_name _ _ Ds1)|exact Dv1]).
+    assert (N1 : names s1 = names s) by (apply names_put; apply (ds_name _ _ Ds1)).
+    assert (Hc : (cur < length (st_defs s))%nat) by apply IR.
+    assert (K : forall s2 pk, vstep s1 s2 -> names s2 = names s1 ->
+              (let* calls := aligned (POuter ii pk) (b_items (port_bundle pk (get_def rk s2))) ws in
+               let* d2 := connect_all calls (get_def cur s2) in Ok (put_def cur d2 s2)) = Ok s' -> vstep s s' /\ names s' = names s).
+    { intros s2 pk V2 N2 H0. apply bind_ok in H0. destruct H0 as (calls & Ha & H0). apply bind_ok in H0. destruct H0 as (d2 & H2 & H0).
+      inversion H0; subst s'. clear H0.
+      assert (IR2 : iref s2 cur ii rk) by (eapply iref_mono; [eapply smono_trans; [apply V1|apply V2]|exact IR]).
+      destruct (conn_tail_vstep cur ii rk pk s2 ws calls d2) as [V3 N3]; [rewrite N2, N1; exact ND|exact IR2| |exact Ha|exact H2|].
+      + intros w Hw. apply (dm_cables _ _ (sm_defs _ _ (vs_mono _ _ V2) cur)). unfold s1. rewrite get_put_same by exact Hc. apply W1. exact Hw.
+      + split; [eapply vstep_trans; [exact V1|eapply vstep_trans; [exact V2|exact V3]]|congruence]. }
+    destruct fresh; cbv beta iota in H.
+    + eapply K; [| |exact H].
+      * apply put_def_vstep; [reflexivity|apply add_port_dvstep].
+      * apply names_put. reflexivity.
+    + eapply K; [apply vstep_refl|reflexivity|exact H].
+  - destruct fresh; inversion H; subst; [|split; [apply vstep_refl|reflexivity]].
+    split; [apply put_def_vstep; [reflexivity|apply add_port_dvstep]|apply names_put; reflexivity].
 Qed.
